@@ -9,6 +9,9 @@ import (
 	"os/exec"
 	"path/filepath"
 	"strings"
+	"time"
+
+	"golang.org/x/sys/unix"
 
 	"verif/mc/engine"
 	"verif/mc/fixture"
@@ -299,6 +302,17 @@ func enumC06(env *engine.Env, yield func(any) bool) {
 				}
 			}
 		}
+		if cc.comp == "" && cc.sign == "" {
+			// sources that are neither files, directories nor links (a named pipe nobody writes to, a socket, a device),
+			// met in every way a content entry reaches a source
+			for _, sh := range []string{"fifo", "socket", "chardev"} {
+				for _, place := range []string{"direct", "config", "glob", "dir", "tree"} {
+					if !yield(C06Case{Part: "special", Format: cc.f, Shape: sh, Ref: place}) {
+						return
+					}
+				}
+			}
+		}
 		if cc.comp == "" || env.Thorough() {
 			var names []string
 			for r := range refs {
@@ -505,6 +519,100 @@ func checkC06(env *engine.Env, ci any) engine.Outcome {
 		if err == nil {
 			kind, _, _ := strings.Cut(c.Ref, ":")
 			viol("fault:unreadable-source-accepted:"+f+":"+kind+":"+c.Shape, "%s (%s) is %s but Package returned nil and wrote %d bytes", c.Ref, p, c.Shape, buf.Len())
+		}
+	case "special":
+		dir, err := os.MkdirTemp(env.Scratch, "special-")
+		if err != nil {
+			out.HarnessError = err.Error()
+			return out
+		}
+		defer os.RemoveAll(dir)
+		os.Mkdir(filepath.Join(dir, "d"), 0o755)
+		os.WriteFile(filepath.Join(dir, "d", "regular"), []byte("regular file\n"), 0o644)
+		sp := filepath.Join(dir, "d", "special")
+		switch c.Shape {
+		case "fifo":
+			err = unix.Mkfifo(sp, 0o644)
+		case "socket":
+			var fd int
+			if fd, err = unix.Socket(unix.AF_UNIX, unix.SOCK_STREAM, 0); err == nil {
+				defer unix.Close(fd)
+				// bind by a short relative path (socket addresses are limited to 108 bytes)
+				old, _ := os.Getwd()
+				os.Chdir(filepath.Join(dir, "d"))
+				err = unix.Bind(fd, &unix.SockaddrUnix{Name: "special"})
+				os.Chdir(old)
+			}
+		case "chardev":
+			err = unix.Mknod(sp, unix.S_IFCHR|0o644, int(unix.Mkdev(1, 3))) // like /dev/null
+		}
+		out.Key = fmt.Sprintf("special:%s:%s:%s", f, c.Shape, c.Ref)
+		if err != nil {
+			// this host does not let the harness create such a file: nothing to judge
+			out.Key += ":cannot-create"
+			return out
+		}
+		var e model.Entry
+		switch c.Ref {
+		case "direct":
+			e = model.Entry{Src: "d/special", Dst: "/opt/special"}
+		case "config":
+			e = model.Entry{Src: "d/special", Dst: "/etc/special.conf", Type: "config"}
+		case "glob":
+			e = model.Entry{Src: "d/*", Dst: "/opt/d"}
+		case "dir":
+			e = model.Entry{Src: "d/", Dst: "/opt/d"}
+		case "tree":
+			e = model.Entry{Src: "d", Dst: "/opt/d", Type: "tree"}
+		}
+		d := Setting{Name: "default"}.doc([]model.Entry{e}, dir)
+		var buf bytes.Buffer
+		done := make(chan error, 1)
+		go func() { done <- c06Build(d.YAML(), f, &buf, nil) }()
+		out.Transitions++
+		out.Nontrivial = true
+		// a named pipe: Package must not sit down to read it - nobody need ever write to it. Whether it does is observed
+		// without a clock: a write end can be opened without blocking exactly when a reader has the pipe open
+		finished := false
+		for i := 0; !finished && i < 2400; i++ {
+			select {
+			case err = <-done:
+				finished = true
+			case <-time.After(50 * time.Millisecond):
+				if c.Shape != "fifo" {
+					continue
+				}
+				if wfd, werr := unix.Open(sp, unix.O_WRONLY|unix.O_NONBLOCK, 0); werr == nil {
+					viol("fault:waits-on-named-pipe:"+c.Ref, "the source %s is a named pipe: Package(%s) opened it for reading and waits for a writer (it returns only when one appears - never, on a build host)\n%s", sp, f, d.YAML())
+					unix.Close(wfd) // the reader sees end-of-file and goes on
+					select {
+					case <-done:
+					case <-time.After(30 * time.Second):
+					}
+					return out
+				}
+			}
+		}
+		if !finished {
+			viol("fault:never-returns:"+c.Shape+":"+c.Ref, "the source %s is a %s: Package(%s) did not return within two minutes (the configuration packages in milliseconds without it)\n%s", sp, c.Shape, f, d.YAML())
+			return out
+		}
+		out.Key += fmt.Sprintf(":err=%v", err != nil)
+		if err == nil {
+			// a package was produced: it holds nothing but what the entry denotes (files, directories below the destination)
+			pkg, derr := pkgread.Decode(f, buf.Bytes(), env.Tools)
+			if derr != nil {
+				viol("fault:special-source:undecodable:"+f, "a %s among the sources: Package returned nil, the output cannot be decoded: %v", c.Shape, derr)
+				return out
+			}
+			for i := range pkg.Entries {
+				en := &pkg.Entries[i]
+				okKind := en.Kind == "file" || en.Kind == "dir" || en.Kind == "symlink"
+				okPath := en.Path == "/opt" || en.Path == "/etc" || strings.HasPrefix(en.Path, "/opt/") || strings.HasPrefix(en.Path, "/etc/")
+				if !okKind || !okPath {
+					viol("fault:special-source:foreign-member:"+f+":"+c.Shape, "a %s among the sources (%s): Package returned nil and the payload holds a member %q of kind %s", c.Shape, sp, en.Path, en.Kind)
+				}
+			}
 		}
 	case "invalid":
 		d := Setting{Name: "default"}.doc([]model.Entry{{Src: "etc/app.conf", Dst: "/etc/app.conf"}}, tree(env).Root)
